@@ -25,6 +25,10 @@ METH = {'__call__': 'MCall', 'reduce': 'MReduce', 'accumulate': 'MAccumulate', '
         'at': 'MAt', 'reduceat': 'MReduceat'}
 
 
+class NotImplementedReturn(TypeError):
+    """__array_ufunc__ returned NotImplemented (NumPy turns that into a TypeError)"""
+
+
 class Skip(Exception):
     """case outside what the checker can express (non-finite values, unknown dtype ...)"""
 
@@ -127,6 +131,8 @@ def classify(e):
     axis_error = getattr(np, 'exceptions', np).AxisError if hasattr(np, 'exceptions') else np.AxisError
     if isinstance(e, axis_error):
         return 'EAxis'
+    if isinstance(e, NotImplementedReturn):
+        return 'ENotImpl'
     if isinstance(e, RecursionError):
         return 'ERuntime'
     if isinstance(e, TypeError):
@@ -226,14 +232,24 @@ class Call(object):
             args = [ins[0], list(self.idx)] + list(ins[1:])
         else:
             args = list(ins)
+        if self.direct and not self._raw:
+            slf = [o for o in list(ins) + list(outs or []) if hasattr(o, 'space')][0]
+            if outs is not None:
+                kw['out'] = tuple(outs)
+            r = slf.__array_ufunc__(self.ufunc, self.method, *args, **kw)
+            if r is NotImplemented:
+                raise NotImplementedReturn()
+            return r
         return f(*args, **kw)
 
     out_bare = True
+    direct = False      # call self.__array_ufunc__(ufunc, method, *inputs, out=tuple) directly
 
     def observe(self, raw):
         """run on fresh copies of the buffers; returns (observation term, python summary)"""
         bufs = [b.copy() for b in self.bufs]
         ins, outs = self._objs(bufs, raw)
+        self._raw = raw
         try:
             with np.errstate(all='ignore'):
                 r = self._invoke(ins, outs)
@@ -332,8 +348,8 @@ class Call(object):
                                      C.zs(self.idx or []) + '%Z')
         outs = '[]' if self.outs is None else C.lst(
             ['None' if s is None else '(Some %s)' % self.op_term(s) for s in self.outs])
-        t = ('(mkCase %s %s %d %s %s %s %s %s %s %s %s %s %s)'
-             % (variant_term(), uf, self.ufunc.nout, C.lst(rdt), oracle, C.lst([narr_term(b) for b in self.bufs]),
+        t = ('(mkCase %s %s %s %d %s %s %s %s %s %s %s %s %s %s)'
+             % (variant_term(), C.b(self.direct), uf, self.ufunc.nout, C.lst(rdt), oracle, C.lst([narr_term(b) for b in self.bufs]),
                 self.op_term(slf), METH[self.method], C.lst([self.op_term(s) for s in self.ins]), kw, outs,
                 odl_t, raw_t))
         return t, odl_s, raw_s
@@ -342,6 +358,7 @@ class Call(object):
         """NumPy on raw copies WITHOUT out: result dtypes (+ values for the oracle ufuncs)"""
         bufs = [b.copy() for b in self.bufs]
         ins, _ = self._objs(bufs, True)
+        self._raw = True
         try:
             with np.errstate(all='ignore'):
                 r = self._invoke(ins, None)
@@ -390,6 +407,9 @@ def discr_space_for(rng, shape, dtype='float64'):
     kw = {}
     if np.dtype(dtype).kind in 'fc' and rng.random() < 0.3:
         kw['weighting'] = float(rng.choice([3.0, 0.5]))
+    elif np.dtype(dtype).kind in 'fc' and rng.random() < 0.15:
+        rdt = {'float32': 'float32', 'complex64': 'float32'}.get(np.dtype(dtype).name, 'float64')
+        kw['weighting'] = ivals(rng, shape, 1, 4, dtype=rdt)
     return odl.uniform_discr(mins, maxs, shape, dtype=dtype, **kw)
 
 
@@ -537,6 +557,30 @@ def gen_calls(rng, tier):
                     c = Call(uf, '__call__', bufs, ins, outs)
                     yield c, {'kind': kind, 'ufunc': uf.__name__, 'method': '__call__', 'out': outk,
                               'shape': shape}, (kind, uf.__name__, 'call2', outk, len(shape))
+            # ---- direct __array_ufunc__ calls: out tuples of the wrong length / invalid out types
+            for uf, method, nouts in [(np.negative, '__call__', 2), (np.add, '__call__', 2), (np.modf, '__call__', 1),
+                                      (np.modf, '__call__', 3), (np.add, 'reduce', 2), (np.add, 'accumulate', 2),
+                                      (np.add, '__call__', 1), (np.negative, '__call__', 1), (np.add, 'reduce', 1)]:
+                for bad in (False, True):
+                    bufs = []
+                    shape = rand_shape(rng)
+                    x = mk_elem(rng, kind, shape, bufs, 'float64')
+                    ins = [x] if (uf.nin == 1 or method != '__call__') else [x, x]
+                    if bad:
+                        # an out entry of a type the element does not accept
+                        o = ('scal', 1.0) if (kind == 'disc' or rng.random() < 0.5) else \
+                            respace(rng, x, bufs, 'disc')
+                        outs = [o] + [respace(rng, x, bufs, 'arr') for _ in range(nouts - 1)]
+                    else:
+                        oshape = shape if method != 'reduce' else shape[1:]
+                        outs = [respace(rng, x, bufs, rng.choice([kind, 'arr']), shape=oshape) for _ in range(nouts)]
+                        if method == 'reduce' and len(shape) == 1:
+                            continue
+                    c = Call(uf, method, bufs, ins, outs)
+                    c.direct = True
+                    yield c, {'kind': kind, 'ufunc': uf.__name__, 'method': method, 'out': 'direct-%d%s' % (
+                        nouts, '-badtype' if bad else ''), 'shape': shape}, \
+                        (kind, uf.__name__, method, 'direct', nouts, bad, len(shape))
             # ---- reduce
             for bname in BOPS:
                 for axk in ['absent', 'none', 'int', 'neg', 'neg-lead1', 'tuple', 'tuple-all', 'empty-tuple', 'oob', 'dup']:
@@ -880,6 +924,8 @@ def probe_key(spec, cat):
     if sk in ('tens', 'disc') and cat == 'raises' and kw.get('dtype') and isinstance(spec['space'].get('weighting'), list) \
             and not np.can_cast(spec['space'].get('wdtype', 'float64'), kw['dtype']):
         return 'tensor-dtype-kw-array-weighting'
+    if sk == 'disc' and m == 'reduce' and cat == 'raises' and isinstance(spec['space'].get('weighting'), list):
+        return 'discr-reduce-array-weighting'
     if sk == 'disc' and m == 'reduce' and cat in ('raises', 'shape'):
         ax = kw.get('axis')
         axs = ax if isinstance(ax, (list, tuple)) else [ax]
@@ -949,7 +995,7 @@ def rand_space_descr(rng, kind, dtype, ndim=None):
         rdt = {'float32': 'float32', 'complex64': 'float32'}.get(dtype, 'float64')
         if c < 0.2:
             sd['weighting'] = float(rng.choice([2.0, 0.5]))
-        elif c < 0.35 and kind == 'tens':
+        elif c < 0.35:
             sd['weighting'] = np.array([rng.randint(1, 4) for _ in range(int(np.prod(shape)))],
                                        dtype=float).reshape(shape).tolist()
             sd['wdtype'] = rdt
